@@ -159,7 +159,7 @@ def model_world(world, extmod=None):
 # generation
 # ---------------------------------------------------------------------------------------------
 
-VAR_VALUES = [jv("int", "0"), jv("int", "5"), jv("str", "a"), jv("str", ""), jv("float", "4607182418800017408"),
+VAR_VALUES = [jv("int", "0"), jv("int", "5"), jv("str", "a"), jv("str", ""), jv("int", "-3"),
               jv("list", [jv("int", "1"), jv("str", "x")]), jv("dict", [[jv("str", "k"), jv("int", "1")]]),
               jv("list", [])]
 CONSTS = [jv("int", "1"), jv("int", "2"), jv("str", "s"), jv("none"), jv("bool", True), jv("int", "0"), jv("str", "")]
@@ -319,6 +319,14 @@ def kept_paths(world):
 # edits
 # ---------------------------------------------------------------------------------------------
 
+def same_hash_class(a, b):
+    """True when dds_hash cannot tell the two values apart: documented identifications (bool = int, list = tuple)
+    or the C05 known-finding collision families - such an edit is invisible to dds by C05, not by C01"""
+    from . import c05
+    rules = tuple(r for r in c05.RULES if r != "digesttext")
+    return c05.canon(a, rules) == c05.canon(b, rules)
+
+
 EDIT_KINDS = ["body", "var", "const_arg", "unrelated_fun", "unrelated_var", "reorder", "ext", "revert"]
 
 
@@ -342,7 +350,7 @@ def apply_edit(rng, world, kind):
         for pair in w["vars"]:
             if pair[0] == v:
                 old = pair[1]
-                new = rng.choice([x for x in VAR_VALUES if json.dumps(x) != json.dumps(old)])
+                new = rng.choice([x for x in VAR_VALUES if not same_hash_class(x, old)])
                 pair[1] = new
         return w, {"kind": kind, "var": v}
     if kind == "const_arg":
@@ -351,7 +359,7 @@ def apply_edit(rng, world, kind):
         if not sites:
             return None
         f, it, a = rng.choice(sites)
-        a["c"] = rng.choice([x for x in CONSTS if json.dumps(x) != json.dumps(a["c"])])
+        a["c"] = rng.choice([x for x in CONSTS if not same_hash_class(x, a["c"])])
         return w, {"kind": kind, "fun": f["name"], "path": it["path"]}
     if kind == "unrelated_fun":
         k = len(w.get("extra", []))
